@@ -52,8 +52,9 @@ def attempt(kind, phase, fault, base, crash_at=None, exc_at=None, crash_after=No
     gen.CTRL['bad'] = {}
     gen.CTRL['gen'] = 3      # this attempt writes 4 padding arrays for list-of-array results, later ones fewer
     plan = json.dumps({'slug': 'g:t'})
-    if fault == 'raise':
+    if fault in ('raise', 'interrupt'):
         gen.CTRL['raise'] = {'slug': 'g:t'}
+        gen.CTRL['raise_base'] = fault == 'interrupt'   # KeyboardInterrupt: raises, but is not an Exception
     elif fault in ('mistyped', 'unserializable', 'genraise'):
         gen.CTRL['bad'] = {plan: fault}
     out = {'final': final, 'exc': None}
@@ -69,6 +70,7 @@ def attempt(kind, phase, fault, base, crash_at=None, exc_at=None, crash_after=No
         rec.finish()
         rec.uninstall()
     gen.CTRL['raise'] = None
+    gen.CTRL['raise_base'] = False
     gen.CTRL['bad'] = {}
     out['ops'] = rec.ops
     out['snap'] = {k: (v if v is None else len(v)) for k, v in rec.snap.items()}
